@@ -1,5 +1,6 @@
 import LitexProofs.Axi.LiteShared
 import LitexProofs.Axi.LiteParts
+import LitexProofs.Axi.LiteDataPure
 /-
   C08, shared interconnect, write-data part: the data-routing scoreboard (`DGhost`) against the registers, and the
   one-step assume/guarantee lemma for `DataOK`.  Single-beat data (see `LiteInterconnectSpec.lean`).
@@ -42,33 +43,27 @@ theorem count_replicate_ne (q L j : Nat) (h : j ≠ L) : (List.replicate q L).co
 
 theorem dgNext_wq (c : Cfg) (rd : Bool) (dg : DGhost) (x : DirIn) (o : DirOut) (i : Nat) :
     (dgNext c rd dg x o).wq i =
-      if mDat x o i then
-        (if mReq x o i then
-          (match dg.ahead i with
-           | some _ => dg.wq i
-           | none => dg.wq i ++ (slaveOf c (x.ms i).aAddr).toList)
-         else dg.wq i).tail
-      else
-        (if mReq x o i then
-          (match dg.ahead i with
-           | some _ => dg.wq i
-           | none => dg.wq i ++ (slaveOf c (x.ms i).aAddr).toList)
-         else dg.wq i) := rfl
+      if mDat x o i && c.wlast (x.ms i).dPay
+      then (wqAfterAddr (dg.wq i) (dg.ahead i) (mReq x o i) (slaveOf c (x.ms i).aAddr)).tail
+      else wqAfterAddr (dg.wq i) (dg.ahead i) (mReq x o i) (slaveOf c (x.ms i).aAddr) := rfl
 
 theorem dgNext_ahead (c : Cfg) (rd : Bool) (dg : DGhost) (x : DirIn) (o : DirOut) (i : Nat) :
     (dgNext c rd dg x o).ahead i =
-      if mDat x o i &&
-          (if mReq x o i then
-            (match dg.ahead i with
-             | some _ => dg.wq i
-             | none => dg.wq i ++ (slaveOf c (x.ms i).aAddr).toList)
-           else dg.wq i).isEmpty
-      then slaveOf c (x.ms i).aAddr
+      if mDat x o i && (wqAfterAddr (dg.wq i) (dg.ahead i) (mReq x o i) (slaveOf c (x.ms i).aAddr)).isEmpty
+      then (slaveOf c (x.ms i).aAddr).map fun k => (k, c.wlast (x.ms i).dPay)
       else (if mReq x o i then none else dg.ahead i) := rfl
 
 theorem dgNext_sd (c : Cfg) (rd : Bool) (dg : DGhost) (x : DirIn) (o : DirOut) (j : Nat) :
     (dgNext c rd dg x o).sd j =
-      dg.sd j + (if sDat x o j then 1 else 0) - (if sDone (c.gated rd) x o j then 1 else 0) := rfl
+      dg.sd j + (if sDat x o j && c.wlast (o.toS j).dPay then 1 else 0)
+        - (if sDone (c.gated rd) x o j then 1 else 0) := rfl
+
+/-- A master without any event keeps its entries. -/
+theorem dgNext_idle (c : Cfg) (rd : Bool) (dg : DGhost) (x : DirIn) (o : DirOut) (i : Nat)
+    (h1 : mReq x o i = false) (h2 : mDat x o i = false) :
+    (dgNext c rd dg x o).wq i = dg.wq i ∧ (dgNext c rd dg x o).ahead i = dg.ahead i := by
+  rw [dgNext_wq, dgNext_ahead, h1, h2]
+  simp [wqAfterAddr]
 
 namespace Shared
 variable (c : Cfg) (rd : Bool)
@@ -78,14 +73,14 @@ structure DInv (s : ShDir) (g : Fifo) (dg : DGhost) : Prop where
   others : ∀ i, i < c.n → i ≠ s.arb.grant → dg.wq i = [] ∧ dg.ahead i = none
   aheadq : dg.ahead s.arb.grant ≠ none → dg.wq s.arb.grant = []
   wq_lt  : ∀ e ∈ dg.wq s.arb.grant, e < c.m
-  ah_lt  : ∀ k, dg.ahead s.arb.grant = some k → k < c.m
-  bal    : ∀ j, j < c.m → (g j).length + (if dg.ahead s.arb.grant = some j then 1 else 0)
+  ah_lt  : ∀ k b, dg.ahead s.arb.grant = some (k, b) → k < c.m
+  bal    : ∀ j, j < c.m → (g j).length + (if dg.ahead s.arb.grant = some (j, true) then 1 else 0)
                             = (dg.wq s.arb.grant).count j + dg.sd j
 
 theorem dinv_reset : DInv c (init c rd) Fifo.empty DGhost.empty := by
   refine ⟨fun _ _ _ => ⟨rfl, rfl⟩, fun _ => rfl, ?_, ?_, ?_⟩
   · intro e he; cases he
-  · intro k hk; cases hk
+  · intro k b hk; cases hk
   · intro j _; rfl
 
 /-- One step of the data part with exactly slave `L` selected. -/
@@ -139,10 +134,10 @@ theorem dstep_some (hd : Disjoint c) (s : ShDir) (g : Fifo) (dg : DGhost) (x : D
       omega
   obtain ⟨q, hq⟩ : ∃ q, dg.wq s.arb.grant = List.replicate q L :=
     ⟨(dg.wq s.arb.grant).length, List.eq_replicate_iff.mpr ⟨rfl, hwqL⟩⟩
-  have hah : ∀ k, dg.ahead s.arb.grant = some k → k = L := by
-    intro k hk
-    obtain ⟨hv, hr⟩ := denv.addrHeld s.arb.grant k hG hk
-    exact hd _ k L (hdinv.ah_lt k hk) hL hr (hroute hv)
+  have hah : ∀ k b, dg.ahead s.arb.grant = some (k, b) → k = L := by
+    intro k b hk
+    obtain ⟨hv, hr⟩ := denv.addrHeld s.arb.grant k b hG hk
+    exact hd _ k L (hdinv.ah_lt k b hk) hL hr (hroute hv)
   -- the data target of the owner is `L` whenever it presents data
   have htarget : (bus s x).dValid = true → DTarget c dg x s.arb.grant L := by
     intro hdv
@@ -203,10 +198,10 @@ theorem dstep_some (hd : Disjoint c) (s : ShDir) (g : Fifo) (dg : DGhost) (x : D
     · rw [e_sDat j hj, hb]; simp
     · unfold sDone; rw [e_sRsp j hj, hb]; simp
   -- other masters' entries do not change
-  have hwq_o : ∀ i, i ≠ s.arb.grant → (dgNext c rd dg x (out c rd s x)).wq i = dg.wq i := by
-    intro i hne; rw [dgNext_wq, e_mDat_o i hne, e_mReq_o i hne]; simp
-  have hah_o : ∀ i, i ≠ s.arb.grant → (dgNext c rd dg x (out c rd s x)).ahead i = dg.ahead i := by
-    intro i hne; rw [dgNext_ahead, e_mDat_o i hne, e_mReq_o i hne]; simp
+  have hwq_o : ∀ i, i ≠ s.arb.grant → (dgNext c rd dg x (out c rd s x)).wq i = dg.wq i :=
+    fun i hne => (dgNext_idle c rd dg x _ i (e_mReq_o i hne) (e_mDat_o i hne)).1
+  have hah_o : ∀ i, i ≠ s.arb.grant → (dgNext c rd dg x (out c rd s x)).ahead i = dg.ahead i :=
+    fun i hne => (dgNext_idle c rd dg x _ i (e_mReq_o i hne) (e_mDat_o i hne)).2
   -- slave-side data counters
   have hsd_o : ∀ j, j < c.m → j ≠ L → (dgNext c rd dg x (out c rd s x)).sd j = dg.sd j := by
     intro j hj hne
@@ -222,9 +217,9 @@ theorem dstep_some (hd : Disjoint c) (s : ShDir) (g : Fifo) (dg : DGhost) (x : D
     intro j hj hne
     have hb := hdinv.bal j hj
     rw [hoth j hj hne, hq, count_replicate_ne q L j hne] at hb
-    have : (if dg.ahead s.arb.grant = some j then 1 else 0) = 0 := by
+    have : (if dg.ahead s.arb.grant = some (j, true) then 1 else 0) = 0 := by
       split
-      · rename_i h; exact absurd (hah j h) hne
+      · rename_i h; exact absurd (hah j true h) hne
       · rfl
     rw [this] at hb
     simpa using hb.symm
@@ -257,8 +252,10 @@ theorem dstep_some (hd : Disjoint c) (s : ShDir) (g : Fifo) (dg : DGhost) (x : D
       · rw [hsReqL] at hrq
         simp only [Bool.and_eq_true] at hrq
         rw [hiss hrq.1 hrq.2]; simp; omega
+  have hpayL : ((out c rd s x).toS L).dPay = (x.ms s.arb.grant).dPay := by rw [hS L hL]; rfl
   have hsdL : (dgNext c rd dg x (out c rd s x)).sd L + (if sDone (c.gated rd) x (out c rd s x) L then 1 else 0)
-      = dg.sd L + (if sDat x (out c rd s x) L then 1 else 0) := by
+      = dg.sd L + (if sDat x (out c rd s x) L && c.wlast (x.ms s.arb.grant).dPay then 1 else 0) := by
+    rw [← hpayL]
     rw [dgNext_sd]
     cases hdn : sDone (c.gated rd) x (out c rd s x) L
     · simp
@@ -278,63 +275,37 @@ theorem dstep_some (hd : Disjoint c) (s : ShDir) (g : Fifo) (dg : DGhost) (x : D
     cases q with
     | zero => rfl
     | succ q => simp [List.replicate_succ] at this
+  have hupd := master_update q L (dg.ahead s.arb.grant) (mReq x (out c rd s x) s.arb.grant)
+    (mDat x (out c rd s x) s.arb.grant) (c.wlast (x.ms s.arb.grant).dPay) (slaveOf c (x.ms s.arb.grant).aAddr)
+    hah hq0_of_ah
+    (by
+      intro hdt
+      rw [hmDatG] at hdt
+      simp only [Bool.and_eq_true] at hdt
+      rcases denv.dataAfterAddr s.arb.grant hG hdt.1 with h | h
+      · left; intro h0; rw [hq, h0] at h; exact h rfl
+      · exact Or.inr h.2)
+    (by
+      intro h
+      apply hslave
+      rcases h with h | ⟨h1, h2⟩
+      · rw [hmReqG] at h; simp only [Bool.and_eq_true] at h; exact h.1
+      · rw [hmDatG] at h1
+        simp only [Bool.and_eq_true] at h1
+        rcases denv.dataAfterAddr s.arb.grant hG h1.1 with h | h
+        · rw [hq, h2] at h; exact absurd rfl h
+        · exact h.1)
   have hown : ∃ q' a', (dgNext c rd dg x (out c rd s x)).wq s.arb.grant = List.replicate q' L ∧
-      (dgNext c rd dg x (out c rd s x)).ahead s.arb.grant = a' ∧ (∀ k, a' = some k → k = L) ∧
+      (dgNext c rd dg x (out c rd s x)).ahead s.arb.grant = a' ∧ (∀ k b, a' = some (k, b) → k = L) ∧
       (a' ≠ none → q' = 0) ∧
-      (g L).length + (if sReq x (out c rd s x) L then 1 else 0) + (if a' = some L then 1 else 0)
-        = q' + dg.sd L + (if sDat x (out c rd s x) L then 1 else 0) := by
-    rw [dgNext_wq, dgNext_ahead, hmReqG, hmDatG, hsReqL, hsDatL, hq]
-    cases hrq : ((bus s x).aValid && (x.ss L).aReady) <;> cases hdt : ((bus s x).dValid && (x.ss L).dReady)
-    · -- no address, no data
-      refine ⟨q, dg.ahead s.arb.grant, (by simp), (by simp), hah, hq0_of_ah, ?_⟩
-      simp; omega
-    · -- data only
-      have hdv : (bus s x).dValid = true := by simp only [Bool.and_eq_true] at hdt; exact hdt.1
-      cases q with
-      | zero =>
-        rcases denv.dataAfterAddr s.arb.grant hG hdv with h | h
-        · rw [hq] at h; exact absurd rfl h
-        · refine ⟨0, some L, (by simp), ?_, (by intro k hk; exact (Option.some.inj hk).symm), (by intro _; rfl), ?_⟩
-          · simp [hslave h.1]
-          · rw [h.2] at hbalL; simp at hbalL ⊢; omega
-      | succ q =>
-        have hnone : dg.ahead s.arb.grant = none := by
-          cases h : dg.ahead s.arb.grant with
-          | none => rfl
-          | some k => exact absurd (hq0_of_ah (by rw [h]; simp)) (by simp)
-        refine ⟨q, none, (by simp [List.replicate_succ]), (by simp [List.replicate_succ, hnone]), (by intro k hk; cases hk),
-          (by intro h; exact absurd rfl h), ?_⟩
-        rw [hnone] at hbalL; simp at hbalL ⊢; omega
-    · -- address only
-      have hv : (bus s x).aValid = true := by simp only [Bool.and_eq_true] at hrq; exact hrq.1
-      cases hahv : dg.ahead s.arb.grant with
-      | none =>
-        refine ⟨q + 1, none, ?_, (by simp), (by intro k hk; cases hk), (by intro h; exact absurd rfl h), ?_⟩
-        · simp [hslave hv, List.replicate_succ']
-        · rw [hahv] at hbalL; simp at hbalL ⊢; omega
-      | some k =>
-        have hkL := hah k hahv
-        subst hkL
-        have hq0 := hq0_of_ah (by rw [hahv]; simp)
-        subst hq0
-        refine ⟨0, none, (by simp), (by simp), (by intro k hk; cases hk), (by intro h; exact absurd rfl h), ?_⟩
-        rw [hahv] at hbalL; simp at hbalL ⊢; omega
-    · -- address and data
-      have hv : (bus s x).aValid = true := by simp only [Bool.and_eq_true] at hrq; exact hrq.1
-      have hdv : (bus s x).dValid = true := by simp only [Bool.and_eq_true] at hdt; exact hdt.1
-      cases hahv : dg.ahead s.arb.grant with
-      | none =>
-        refine ⟨q, none, ?_, ?_, (by intro k hk; cases hk), (by intro h; exact absurd rfl h), ?_⟩
-        · simp [hslave hv]
-          rw [← List.replicate_succ']; simp [List.replicate_succ]
-        · simp [hslave hv]
-        · rw [hahv] at hbalL; simp at hbalL ⊢; omega
-      | some k =>
-        exfalso
-        have hq0 := hq0_of_ah (by rw [hahv]; simp)
-        rcases denv.dataAfterAddr s.arb.grant hG hdv with h | h
-        · rw [hq, hq0] at h; exact h rfl
-        · rw [hahv] at h; cases h.2
+      (g L).length + (if sReq x (out c rd s x) L then 1 else 0) + (if a' = some (L, true) then 1 else 0)
+        = q' + dg.sd L + (if sDat x (out c rd s x) L && c.wlast (x.ms s.arb.grant).dPay then 1 else 0) := by
+    obtain ⟨q', a', h1, h2, h3, h4, h5⟩ := hupd
+    refine ⟨q', a', ?_, ?_, h3, h4, ?_⟩
+    · rw [dgNext_wq, hq]; exact h1
+    · rw [dgNext_ahead, hq]; exact h2
+    · rw [hsReqL, hsDatL, ← hmReqG, ← hmDatG]
+      omega
   obtain ⟨q', a', hwq', hah', hahL', haq', hbal'⟩ := hown
   -- does the grant move?
   have hfro : (s.arb.cnt ≠ 0 ∨ (bus s x).aValid = true ∨ (bus s x).dValid = true ∨ (x.ss L).rValid = true) →
@@ -356,7 +327,7 @@ theorem dstep_some (hd : Disjoint c) (s : ShDir) (g : Fifo) (dg : DGhost) (x : D
     · rw [hg', hwq']
       intro e he; rw [(List.mem_replicate.mp he).2]; exact hL
     · rw [hg', hah']
-      intro k hk; rw [hahL' k hk]; exact hL
+      intro k b hk; rw [hahL' k b hk]; exact hL
     · intro j hj
       rw [hg', hah', hwq']
       by_cases hjl : j = L
@@ -364,9 +335,9 @@ theorem dstep_some (hd : Disjoint c) (s : ShDir) (g : Fifo) (dg : DGhost) (x : D
         rw [count_replicate_self]
         omega
       · rw [hfifo_o j hj hjl, hsd_o j hj hjl, hbal_o j hj hjl, count_replicate_ne q' L j hjl]
-        have : (if a' = some j then 1 else 0) = 0 := by
+        have : (if a' = some (j, true) then 1 else 0) = 0 := by
           split
-          · rename_i h; exact absurd (hahL' j h) hjl
+          · rename_i h; exact absurd (hahL' j true h) hjl
           · rfl
         rw [this]; rfl
   · -- a quiet cycle: nothing is outstanding anywhere, the grant may move
@@ -390,7 +361,7 @@ theorem dstep_some (hd : Disjoint c) (s : ShDir) (g : Fifo) (dg : DGhost) (x : D
       cases h : dg.ahead s.arb.grant with
       | none => rfl
       | some k =>
-        have := (denv.addrHeld s.arb.grant k hG h).1
+        have := (denv.addrHeld s.arb.grant k.1 k.2 hG h).1
         rw [← hbus, hav] at this; cases this
     have hgL0 : (g L).length = 0 := by rw [hKg, hK]
     rw [hahn, hgL0] at hbalL
@@ -404,13 +375,16 @@ theorem dstep_some (hd : Disjoint c) (s : ShDir) (g : Fifo) (dg : DGhost) (x : D
       intro i hi
       by_cases hig : i = s.arb.grant
       · subst hig
-        rw [dgNext_wq, dgNext_ahead, hmReqG, hmDatG, hav, hdv, hq, hq0, hahn]
-        simp
+        have h1 : mReq x (out c rd s x) s.arb.grant = false := by rw [hmReqG, hav]; rfl
+        have h2 : mDat x (out c rd s x) s.arb.grant = false := by rw [hmDatG, hdv]; rfl
+        obtain ⟨e1, e2⟩ := dgNext_idle c rd dg x _ s.arb.grant h1 h2
+        rw [e1, e2, hq, hq0, hahn]
+        exact ⟨rfl, rfl⟩
       · rw [hwq_o i hig, hah_o i hig]; exact hdinv.others i hi hig
     have hg'lt : (next c rd s x).arb.grant < c.n := Arb.next_grant_lt _ _ _ _ _ hG
     refine ⟨fun i hi _ => hall i hi, fun _ => (hall _ hg'lt).1, ?_, ?_, ?_⟩
     · rw [(hall _ hg'lt).1]; intro e he; cases he
-    · rw [(hall _ hg'lt).2]; intro k hk; cases hk
+    · rw [(hall _ hg'lt).2]; intro k b hk; cases hk
     · intro j hj
       rw [(hall _ hg'lt).1, (hall _ hg'lt).2]
       by_cases hjl : j = L
@@ -453,9 +427,9 @@ theorem dstep_none (s : ShDir) (g : Fifo) (dg : DGhost) (x : DirIn) (hinv : Inv 
     cases h : dg.ahead s.arb.grant with
     | none => rfl
     | some k =>
-      have := (denv.addrHeld s.arb.grant k hG h).2
+      have := (denv.addrHeld s.arb.grant k.1 k.2 hG h).2
       have hb : bus s x = x.ms s.arb.grant := rfl
-      rw [← hb, hnr k (hdinv.ah_lt k h)] at this; cases this
+      rw [← hb, hnr k.1 (hdinv.ah_lt k.1 k.2 h)] at this; cases this
   have hwqn : dg.wq s.arb.grant = [] := by
     cases h : dg.wq s.arb.grant with
     | nil => rfl
@@ -480,14 +454,15 @@ theorem dstep_none (s : ShDir) (g : Fifo) (dg : DGhost) (x : DirIn) (hinv : Inv 
   have hall' : ∀ i, i < c.n → (dgNext c rd dg x (out c rd s x)).wq i = [] ∧
       (dgNext c rd dg x (out c rd s x)).ahead i = none := by
     intro i hi
-    rw [dgNext_wq, dgNext_ahead, e_mReq, e_mDat]
-    simpa using hall i hi
+    obtain ⟨e1, e2⟩ := dgNext_idle c rd dg x _ i (e_mReq i) (e_mDat i)
+    rw [e1, e2]
+    exact hall i hi
   have hg'lt : (next c rd s x).arb.grant < c.n := Arb.next_grant_lt _ _ _ _ _ hG
   refine ⟨⟨?_, ?_⟩, fun i hi _ => hall' i hi, fun _ => (hall' _ hg'lt).1, ?_, ?_, ?_⟩
   · intro i _ h; rw [e_mDat] at h; cases h
   · intro j hj h; rw [e_sDat j hj] at h; cases h
   · rw [(hall' _ hg'lt).1]; intro e he; cases he
-  · rw [(hall' _ hg'lt).2]; intro k hk; cases hk
+  · rw [(hall' _ hg'lt).2]; intro k b hk; cases hk
   · intro j hj
     rw [(hall' _ hg'lt).1, (hall' _ hg'lt).2, dgNext_sd, e_sDat j hj, e_sDone j hj, hsd0 j hj]
     unfold fifoNext
